@@ -427,3 +427,563 @@ Proof.
     destruct (replace_node_good h g v nn W AC Hv FR) as [h1 [g1 [E [W1 A1]]]].
     rewrite E. cbn [bind]. apply IH; auto.
 Qed.
+
+(* ------------------------------------------------------------------ tree_growth, reduce_mutation *)
+(* "any fresh tree": the objects of the product only point at each other, the ancestors of its
+   root form no cycle, carry UniqueList containers without repeated parents and pairwise distinct
+   uids.  Nothing is asked about the relation of these uids to those of the graph (update_subtree
+   renews the clashing ones). *)
+Definition tree_ok (h : heap) (t : tree) : bool :=
+  let a := alloc_tree h t in
+  forallb (fun nd => forallb (fun p => p <? length (fst t)) (parents nd)) (fst t) &&
+  (snd t <? length (fst t)) &&
+  match hierarchy (fst a) (snd a) with Ok R => ins_ok (fst a) [] R | Raise _ => false end.
+
+Lemma alloc_tree_WF : forall h g t, WF h g ->
+  forallb (fun nd => forallb (fun p => p <? length (fst t)) (parents nd)) (fst t) = true ->
+  WF (fst (alloc_tree h t)) g.
+Proof.
+  intros h g [ns root] W F. unfold alloc_tree. cbn [fst snd] in *. apply alloc_WF; [exact W|].
+  rewrite map_length. apply forallb_forall. intros nd Hnd. apply in_map_iff in Hnd.
+  destruct Hnd as [nd0 [<- H0]]. rewrite forallb_forall in F. specialize (F nd0 H0).
+  unfold shift. cbn [parents]. apply forallb_forall. intros p Hp. apply in_map_iff in Hp.
+  destruct Hp as [p0 [<- Hp0]]. rewrite forallb_forall in F. specialize (F p0 Hp0).
+  apply Nat.ltb_lt in F. apply Nat.ltb_lt. lia.
+Qed.
+
+Lemma hierarchy_member_ok : forall h g v, WF h g -> acyclic h g -> In v g -> is_ok (hierarchy h v) = true.
+Proof.
+  intros h g v W AC Hv. apply hierarchy_ok_iff; [apply (wf_heap _ _ W)|apply (wf_valid _ _ W); exact Hv|apply AC; exact Hv].
+Qed.
+
+Lemma update_subtree_good : forall h g v new, WF h g -> acyclic h g -> In v g -> new < length h ->
+  match hierarchy h new with Ok R => ins_ok h [] R | Raise _ => false end = true ->
+  exists h' g', update_subtree h g v new = Ok (h', g') /\ WF h' g' /\ acyclic h' g'.
+Proof.
+  intros h g v new W AC Hv Vn I.
+  assert (G : guard_b (h, g) (OUpdSub v new) = true).
+  { unfold guard_b. cbn [fst snd].
+    apply andb_true_iff; split; [apply andb_true_iff; split; [apply andb_true_iff; split|]|].
+    - apply memb_In. exact Hv.
+    - apply Nat.ltb_lt. exact Vn.
+    - eapply hierarchy_member_ok; eauto.
+    - exact I. }
+  destruct (update_subtree_WF h g v new W G) as [[h' g'] [E W']]. simpl in W'.
+  exists h', g'. split; [exact E|]. split; [exact W'|].
+  exact (update_subtree_acyclic h g v new h' g' W G E AC).
+Qed.
+
+(* tree_growth: for every member v and every fresh tree t (or no successful candidate at all) *)
+Theorem tree_growth_ok : forall c h g, WF h g -> acyclic h g ->
+  (forall v t, c = Some (v, t) -> In v g /\ tree_ok h t = true) ->
+  exists h' g', tree_growth c (h, g) = Ok (h', g') /\ WF h' g' /\ acyclic h' g'.
+Proof.
+  intros [[v t]|] h g W AC H; simpl; [|exists h, g; auto].
+  destruct (H v t eq_refl) as [Hv T]. unfold tree_ok in T. rewrite !andb_true_iff in T.
+  destruct T as [[T1 T2] T3].
+  pose proof (alloc_tree_WF h g t W T1) as W1.
+  apply update_subtree_good; auto.
+  - destruct t as [ns root]. unfold alloc_tree. cbn [fst snd]. apply acyclic_app; assumption.
+  - destruct t as [ns root]. unfold alloc_tree. cbn [fst snd] in *. rewrite app_length, map_length.
+    apply Nat.ltb_lt in T2. lia.
+Qed.
+
+(* a single new node is a fresh tree, whatever its uid *)
+Lemma shift_fresh : forall b nn, shift b (fresh_node nn) = fresh_node nn.
+Proof. reflexivity. Qed.
+
+Lemma leaf_tree_ok : forall h nn, tree_ok h ([fresh_node nn], 0) = true.
+Proof.
+  intros h nn. unfold tree_ok, alloc_tree. cbn [fst snd map]. rewrite shift_fresh, Nat.add_0_r.
+  assert (P : pars (h ++ [fresh_node nn]) (length h) = []).
+  { unfold pars. rewrite get_alloc_new. reflexivity. }
+  rewrite (hierarchy_leaf _ _ P).
+  apply andb_true_iff. split; [reflexivity|].
+  unfold ins_ok. apply andb_true_iff. split.
+  - cbn [forallb]. rewrite P, get_alloc_new. reflexivity.
+  - apply uid_inj_b_iff. intros a b Ha Hb _. simpl in Ha, Hb.
+    destruct Ha as [<-|[]]. destruct Hb as [<-|[]]. reflexivity.
+Qed.
+
+Lemma update_subtree_leaf_good : forall h g v nn, WF h g -> acyclic h g -> In v g ->
+  exists h' g', update_subtree (h ++ [fresh_node nn]) g v (length h) = Ok (h', g') /\ WF h' g' /\ acyclic h' g'.
+Proof.
+  intros h g v nn W AC Hv.
+  destruct (tree_growth_ok (Some (v, ([fresh_node nn], 0))) h g W AC) as [h' [g' [E R]]].
+  - intros v' t' X. inversion X; subst. split; [exact Hv|apply leaf_tree_ok].
+  - exists h', g'. split; [|exact R]. simpl in E. unfold alloc_tree in E. cbn [fst snd map] in E.
+    rewrite shift_fresh, Nat.add_0_r in E. exact E.
+Qed.
+
+Theorem reduce_ok : forall min_arity tries h g, WF h g -> acyclic h g ->
+  (forall v onn, In (v, onn) tries -> In v g) ->
+  exists h' g', reduce min_arity tries (h, g) = Ok (h', g') /\ WF h' g' /\ acyclic h' g'.
+Proof.
+  intros ma tries h g W AC H. unfold reduce. cbn [snd].
+  destruct (length g =? 1); [exists h, g; auto|].
+  induction tries as [|[v onn] t IH]; simpl; [exists h, g; auto|].
+  assert (Hv : In v g) by (eapply H; left; reflexivity).
+  assert (Ht : forall v' o', In (v', o') t -> In v' g) by (intros; eapply H; right; eauto).
+  destruct (is_excluded h g v); [apply IH; exact Ht|].
+  destruct (deletable ma h g v).
+  - pose proof (hierarchy_member_ok h g v W AC Hv) as K.
+    destruct (delete_subtree_WF h g v W Hv K) as [[h' g'] [E W']]. simpl in W'.
+    exists h', g'. split; [exact E|]. split; [exact W'|].
+    exact (delete_subtree_acyclic h g v h' g' W Hv E AC).
+  - destruct onn as [nn|]; [|apply IH; exact Ht].
+    apply update_subtree_leaf_good; assumption.
+Qed.
+
+(* ------------------------------------------------------------------ single_add_mutation *)
+Lemma reach_local_in : forall h h' (S : ref -> Prop),
+  (forall x p, S x -> In p (pars h x) -> S p) ->
+  (forall x p, S x -> (In p (pars h' x) <-> In p (pars h x))) ->
+  forall a b, reach h' a b -> S a -> reach h a b /\ S b.
+Proof.
+  intros h h' S CL EQ a b R. unfold reach in *. induction R as [a|a p b Hp Hr IHr]; intros Sa.
+  - split; [constructor|exact Sa].
+  - apply (EQ a p Sa) in Hp. destruct (IHr (CL a p Sa Hp)) as [A B]. split; [econstructor; eauto|exact B].
+Qed.
+
+Lemma add_node_leaf : forall h g n, ~ In n g -> pars h n = [] -> add_node h g n = Ok (h, g ++ [n]).
+Proof.
+  intros h g n N P. unfold add_node, add_node_g. simpl. apply memb_false in N. rewrite N, P. reflexivity.
+Qed.
+
+Lemma acyclic_from_leaf : forall h n, pars h n = [] -> acyclic_from h n.
+Proof.
+  intros h n P x R [p [Hp _]]. unfold reach in R. inversion R as [a|a q b Hq _]; subst.
+  - unfold edge in Hp. rewrite P in Hp. destruct Hp.
+  - rewrite P in Hq. destruct Hq.
+Qed.
+
+(* the state after `graph.add_node(new)` for a factory product *)
+Lemma add_leaf_good : forall h g nn, WF h g -> acyclic h g -> fresh_for (h, g) nn ->
+  let h1 := h ++ [fresh_node nn] in let n := length h in
+  WF h1 (g ++ [n]) /\ acyclic h1 (g ++ [n]) /\ add_node h1 g n = Ok (h1, g ++ [n]).
+Proof.
+  intros h g nn W AC FR h1 n.
+  pose proof (alloc1_WF h g nn W) as W1.
+  pose proof (alloc1_pars_new h nn) as P. fold h1 n in P.
+  pose proof (alloc1_new_not_member h g W) as N. fold n in N.
+  pose proof (add_node_leaf h1 g n N P) as E.
+  destruct (add_node_WF h1 g n W1 (alloc1_guard_add h g nn W FR)) as [s' [E' W']].
+  rewrite E in E'. inversion E'; subst s'. simpl in W'.
+  split; [exact W'|]. split; [|exact E].
+  eapply add_node_acyclic; [exact W1|apply alloc1_valid|apply acyclic_from_leaf; exact P|exact E|].
+  apply acyclic_app; assumption.
+Qed.
+
+(* add_as_child: v a member; the child, if any, is a member that has v among its parents *)
+Lemma add_as_child_good : forall h g v child nn, WF h g -> acyclic h g -> In v g -> fresh_for (h, g) nn ->
+  (forall c, child = Some c -> In c g /\ In v (pars h c)) ->
+  exists h' g', add_as_child (h, g) v child nn = Ok (h', g') /\ WF h' g' /\ acyclic h' g'.
+Proof.
+  intros h g v child nn W AC Hv FR HC. unfold add_as_child. cbn [fst snd].
+  destruct (add_leaf_good h g nn W AC FR) as [W1 [A1 E1]].
+  set (h1 := h ++ [fresh_node nn]) in *. set (n := length h) in *. set (g1 := g ++ [n]) in *.
+  rewrite E1. cbn [bind fst snd].
+  assert (Nn : ~ In n g) by (apply (alloc1_new_not_member h g W)).
+  assert (Hv1 : In v g1) by (apply in_or_app; left; exact Hv).
+  assert (Hn1 : In n g1) by (apply in_or_app; right; left; reflexivity).
+  assert (Pold : forall x, In x g -> pars h1 x = pars h x).
+  { intros x Hx. apply pars_app_l. apply (wf_valid _ _ W). exact Hx. }
+  assert (CLg : forall x p, In x g -> In p (pars h1 x) -> In p g).
+  { intros x p Hx Hp. rewrite (Pold x Hx) in Hp. eapply (wf_closed _ _ W); eauto. }
+  (* connect(v, new) *)
+  assert (NR1 : ~ reach h1 v n).
+  { intros R. apply Nn. exact (reach_closed_set h1 (fun x => In x g) v n R Hv CLg). }
+  destruct (connect_WF h1 g1 v n W1 Hv1 Hn1) as [h2 [E2 W2]]. rewrite E2. cbn [bind fst snd].
+  pose proof (connect_acyclic h1 g1 v n h2 g1 W1 Hv1 Hn1 NR1 E2 A1) as A2.
+  destruct (connect_char h1 g1 v n h2 g1 W1 Hv1 Hn1 E2) as [_ [_ P2]].
+  destruct child as [c|]; [|exists h2, g1; auto].
+  destruct (HC c eq_refl) as [Hc Hvc].
+  assert (Hc1 : In c g1) by (apply in_or_app; left; exact Hc).
+  assert (Ncn : c <> n) by (intros ->; tauto).
+  (* connect(new, child) *)
+  assert (P2g : forall x p, In x g -> (In p (pars h2 x) <-> In p (pars h x))).
+  { intros x p Hx. rewrite P2, (Pold x Hx). split; [intros [A|[-> _]]; [exact A|tauto]|auto]. }
+  assert (NR2 : ~ reach h2 n c).
+  { intros R. unfold reach in R. inversion R as [a|a q b Hq Rq]; subst; [congruence|].
+    apply P2 in Hq. destruct Hq as [Hq|[_ ->]].
+    - pose proof (alloc1_pars_new h nn) as X. fold h1 n in X. rewrite X in Hq. destruct Hq.
+    - destruct (reach_local_in h h2 (fun x => In x g) (wf_closed _ _ W) P2g v c Rq Hv) as [Rh _].
+      apply (AC c Hc c (reach_refl _ _)). exists v. split; [exact Hvc|exact Rh]. }
+  destruct (connect_WF h2 g1 n c W2 Hn1 Hc1) as [h3 [E3 W3]]. rewrite E3. cbn [bind fst snd].
+  pose proof (connect_acyclic h2 g1 n c h3 g1 W2 Hn1 Hc1 NR2 E3 A2) as A3.
+  (* disconnect(v, child, clean_up_leftovers=True) *)
+  destruct (disconnect_WF h3 g1 v c true W3 Hv1 Hc1) as [[h4 g4] [E4 W4]]. simpl in W4.
+  exists h4, g4. split; [exact E4|]. split; [exact W4|].
+  exact (disconnect_acyclic h3 g1 v c true h4 g4 W3 Hv1 Hc1 E4 A3).
+Qed.
+
+(* add_separate_parent_node has the effect of connect_nodes(new, v) on the graph with the new leaf *)
+Lemma sep_parent_as_connect : forall h g v nn, WF h g -> In v g ->
+  add_separate_parent (h, g) v nn =
+  connect_nodes (h ++ [fresh_node nn]) (g ++ [length h]) (length h) v.
+Proof.
+  intros h g v nn W Hv. unfold add_separate_parent, connect_nodes. cbn [fst snd].
+  set (h1 := h ++ [fresh_node nn]). set (n := length h).
+  assert (Vv : v < length h) by (apply (wf_valid _ _ W); exact Hv).
+  assert (Pv : pars h1 v = pars h v) by (apply pars_app_l; exact Vv).
+  assert (Nn : ~ In n g) by (apply (alloc1_new_not_member h g W)).
+  assert (M : memb v (node_children h1 (g ++ [n]) n) = false).
+  { apply memb_false. intros X. apply node_children_In in X. destruct X as [_ X].
+    rewrite Pv in X. apply Nn. eapply (wf_closed _ _ W); eauto. }
+  rewrite M.
+  assert (U : uniq (get h1 v) = true).
+  { unfold h1. rewrite get_app_l by exact Vv. apply (wf_uniq _ _ W). exact Hv. }
+  destruct (pars h1 v) as [|q t] eqn:EP; cbn [null]; [|reflexivity].
+  unfold set_pars_uniq, set_pars, with_parents, pl_append. rewrite U. cbn [memb existsb andb app]. reflexivity.
+Qed.
+
+Lemma add_separate_parent_good : forall h g v nn, WF h g -> acyclic h g -> In v g -> fresh_for (h, g) nn ->
+  exists h' g', add_separate_parent (h, g) v nn = Ok (h', g') /\ WF h' g' /\ acyclic h' g'.
+Proof.
+  intros h g v nn W AC Hv FR. rewrite (sep_parent_as_connect h g v nn W Hv).
+  destruct (add_leaf_good h g nn W AC FR) as [W1 [A1 _]].
+  set (h1 := h ++ [fresh_node nn]) in *. set (n := length h) in *. set (g1 := g ++ [n]) in *.
+  assert (Hv1 : In v g1) by (apply in_or_app; left; exact Hv).
+  assert (Hn1 : In n g1) by (apply in_or_app; right; left; reflexivity).
+  assert (Nn : ~ In n g) by (apply (alloc1_new_not_member h g W)).
+  assert (NR : ~ reach h1 n v).
+  { intros R. unfold reach in R. inversion R as [a|a q b Hq _]; subst; [tauto|].
+    pose proof (alloc1_pars_new h nn) as X. fold h1 n in X. rewrite X in Hq. destruct Hq. }
+  destruct (connect_WF h1 g1 n v W1 Hn1 Hv1) as [h2 [E W2]].
+  exists h2, g1. split; [exact E|]. split; [exact W2|].
+  exact (connect_acyclic h1 g1 n v h2 g1 W1 Hn1 Hv1 NR E A1).
+Qed.
+
+(* add_intermediate_node: the state built by the two nodes_from assignments *)
+Lemma add_node_g_known : forall h g n, ~ In n g -> (forall p, In p (pars h n) -> In p g) -> 1 <= length h ->
+  add_node_g h g n = Ok (g ++ [n]).
+Proof.
+  intros h g n N P L. unfold add_node_g. destruct (length h) as [|k] eqn:EL; [lia|].
+  cbn [dfs_add]. apply memb_false in N. rewrite N.
+  assert (F : forall ps, (forall p, In p ps -> In p g) ->
+    fold_left (fun acc p => match acc with Ok g1 => dfs_add (pars h) (S k) g1 p | Raise e => Raise e end)
+              ps (Ok (g ++ [n])) = Ok (g ++ [n])).
+  { induction ps as [|p t IH]; intros I; [reflexivity|]. cbn [fold_left dfs_add].
+    assert (M : memb p (g ++ [n]) = true) by (apply memb_In; apply in_or_app; left; apply I; left; reflexivity).
+    rewrite M. apply IH. intros q Hq. apply I. right. exact Hq. }
+  apply F. exact P.
+Qed.
+
+Lemma reach_step_inv : forall h a b, reach h a b -> a <> b -> exists q, In q (pars h a) /\ reach h q b.
+Proof.
+  intros h a b R N. unfold reach in R. inversion R as [x|x q y Hq Rq]; subst; [congruence|].
+  exists q. split; assumption.
+Qed.
+
+Section Intermediate.
+  Variables (h : heap) (g : graph) (v : ref) (nn : newnode).
+  Hypothesis W : WF h g.
+  Hypothesis AC : acyclic h g.
+  Hypothesis Hv : In v g.
+  Hypothesis FR : fresh_for (h, g) nn.
+  Let n := length h.
+  Let h1 := h ++ [fresh_node nn].
+  Let h3 := set_pars_uniq (set_pars_uniq h1 n (dedupe (pars h1 v))) v [n].
+  Let g1 := g ++ [n].
+
+  Let Vv : v < length h. Proof. apply (wf_valid _ _ W). exact Hv. Qed.
+  Let Nvn : v <> n. Proof. unfold n. lia. Qed.
+  Let Nn : ~ In n g. Proof. apply (alloc1_new_not_member h g W). Qed.
+  Let L1 : length h1 = S (length h). Proof. unfold h1. rewrite app_length. simpl. lia. Qed.
+
+  Lemma inter_get : forall x, get h3 x =
+    if x =? v then mkNode (uid (get h v)) (label (get h v)) [n] true
+    else if x =? n then mkNode (fst nn) (snd nn) (pars h v) true
+    else get h1 x.
+  Proof.
+    intros x. unfold h3, set_pars_uniq. rewrite !get_upd, !length_upd, L1.
+    assert (Pv : pars h1 v = pars h v) by (apply pars_app_l; exact Vv).
+    assert (G1n : get h1 n = fresh_node nn) by (unfold h1, n; apply get_alloc_new).
+    assert (G1v : get h1 v = get h v) by (unfold h1; apply get_app_l; exact Vv).
+    destruct (Nat.eqb_spec v x) as [<-|N1].
+    - assert (X : (v <? S (length h)) = true) by (apply Nat.ltb_lt; lia). rewrite X. cbn [andb].
+      rewrite Nat.eqb_refl. assert (Y : (n =? v) = false) by (apply Nat.eqb_neq; auto). rewrite Y. cbn [andb].
+      rewrite G1v. reflexivity.
+    - cbn [andb]. assert (Y : (x =? v) = false) by (apply Nat.eqb_neq; auto). rewrite Y.
+      destruct (Nat.eqb_spec n x) as [<-|N2].
+      + assert (X : (n <? S (length h)) = true) by (apply Nat.ltb_lt; unfold n; lia). rewrite X. cbn [andb].
+        rewrite Nat.eqb_refl, G1n, Pv. cbn [fresh_node uid label].
+        rewrite dedupe_nodup_id by (apply (wf_pnodup _ _ W); exact Hv). reflexivity.
+      + cbn [andb]. assert (Z : (x =? n) = false) by (apply Nat.eqb_neq; auto). rewrite Z. reflexivity.
+  Qed.
+
+  Lemma inter_len : length h3 = S (length h).
+  Proof. unfold h3, set_pars_uniq. rewrite !length_upd. exact L1. Qed.
+
+  Lemma inter_pars_v : pars h3 v = [n].
+  Proof. unfold pars. rewrite inter_get, Nat.eqb_refl. reflexivity. Qed.
+
+  Lemma inter_pars_n : pars h3 n = pars h v.
+  Proof.
+    unfold pars at 1. rewrite inter_get. assert (Y : (n =? v) = false) by (apply Nat.eqb_neq; auto).
+    rewrite Y, Nat.eqb_refl. reflexivity.
+  Qed.
+
+  Lemma inter_get_old : forall x, In x g -> x <> v -> get h3 x = get h x.
+  Proof.
+    intros x Hx N. rewrite inter_get.
+    assert (Y : (x =? v) = false) by (apply Nat.eqb_neq; auto). rewrite Y.
+    assert (Z : (x =? n) = false) by (apply Nat.eqb_neq; intros ->; tauto). rewrite Z.
+    unfold h1. apply get_app_l. apply (wf_valid _ _ W). exact Hx.
+  Qed.
+
+  Lemma inter_pars_old : forall x, In x g -> x <> v -> pars h3 x = pars h x.
+  Proof. intros. unfold pars. rewrite inter_get_old; auto. Qed.
+
+  Lemma inter_uid : forall x, In x g -> uid (get h3 x) = uid (get h x).
+  Proof.
+    intros x Hx. destruct (Nat.eq_dec x v) as [->|N]; [|rewrite inter_get_old; auto].
+    rewrite inter_get, Nat.eqb_refl. reflexivity.
+  Qed.
+
+  Lemma inter_pars_cases : forall x p, In x g1 -> In p (pars h3 x) ->
+    (x = v /\ p = n) \/ (x = n /\ In p (pars h v)) \/ (In x g /\ x <> v /\ In p (pars h x)).
+  Proof.
+    intros x p Hx Hp. apply in_app_or in Hx. destruct Hx as [Hx|[<-|[]]].
+    - destruct (Nat.eq_dec x v) as [->|N].
+      + rewrite inter_pars_v in Hp. destruct Hp as [<-|[]]. auto.
+      + rewrite (inter_pars_old x Hx N) in Hp. auto.
+    - rewrite inter_pars_n in Hp. auto.
+  Qed.
+
+  Lemma inter_WF : WF h3 g1.
+  Proof.
+    constructor.
+    - intros r p Hr Hp. rewrite inter_len in *. unfold pars in Hp. rewrite inter_get in Hp.
+      destruct (r =? v); [destruct Hp as [<-|[]]; unfold n; lia|].
+      destruct (r =? n).
+      + cbn [parents] in Hp. pose proof (WF_par_valid h g v p W Hv Hp). lia.
+      + pose proof (heap_ok_alloc1 h nn (wf_heap _ _ W) r p) as X. fold h1 in X. rewrite L1 in X. apply X; assumption.
+    - apply NoDup_snoc; [apply (wf_nodup _ _ W)|exact Nn].
+    - intros r Hr. rewrite inter_len. apply in_app_or in Hr. destruct Hr as [Hr|[<-|[]]]; [|unfold n; lia].
+      pose proof (wf_valid _ _ W r Hr). lia.
+    - intros a b Ha Hb E.
+      assert (Un : uid (get h3 n) = fst nn).
+      { rewrite inter_get. assert (Y : (n =? v) = false) by (apply Nat.eqb_neq; auto). rewrite Y, Nat.eqb_refl. reflexivity. }
+      apply in_app_or in Ha. apply in_app_or in Hb.
+      destruct Ha as [Ha|[<-|[]]]; destruct Hb as [Hb|[<-|[]]]; auto.
+      + rewrite (inter_uid a Ha), (inter_uid b Hb) in E. apply (wf_uid _ _ W); assumption.
+      + rewrite (inter_uid a Ha), Un in E. exfalso. apply (FR a Ha). exact E.
+      + rewrite (inter_uid b Hb), Un in E. exfalso. apply (FR b Hb). symmetry. exact E.
+    - intros r Hr. apply in_app_or in Hr. destruct Hr as [Hr|[<-|[]]].
+      + destruct (Nat.eq_dec r v) as [->|N].
+        * rewrite inter_pars_v. constructor; [intros []|constructor].
+        * rewrite (inter_pars_old r Hr N). apply (wf_pnodup _ _ W). exact Hr.
+      + rewrite inter_pars_n. apply (wf_pnodup _ _ W). exact Hv.
+    - intros r Hr. rewrite inter_get. destruct (r =? v); [reflexivity|]. destruct (r =? n) eqn:E; [reflexivity|].
+      apply in_app_or in Hr. destruct Hr as [Hr|[<-|[]]]; [|rewrite Nat.eqb_refl in E; discriminate].
+      unfold h1. rewrite get_app_l by (apply (wf_valid _ _ W); exact Hr). apply (wf_uniq _ _ W). exact Hr.
+    - intros r p Hr Hp. destruct (inter_pars_cases r p Hr Hp) as [[_ ->]|[[_ X]|[A [_ X]]]].
+      + apply in_or_app. right. left. reflexivity.
+      + apply in_or_app. left. eapply (wf_closed _ _ W); eauto.
+      + apply in_or_app. left. eapply (wf_closed _ _ W); eauto.
+  Qed.
+
+  (* contracting the new node into v maps paths of the new graph to paths of the old one *)
+  Let f (x : ref) : ref := if x =? n then v else x.
+
+  Lemma inter_reach : forall a b, reach h3 a b -> In a g1 -> reach h (f a) (f b) /\ In b g1.
+  Proof.
+    intros a b R. unfold reach in *. induction R as [a|a p b Hp Hr IHr]; intros Ha.
+    - split; [constructor|exact Ha].
+    - assert (Hpg : In p g1) by (eapply (wf_closed _ _ inter_WF); eauto).
+      destruct (IHr Hpg) as [R1 Hb]. split; [|exact Hb].
+      destruct (inter_pars_cases a p Ha Hp) as [[-> ->]|[[-> X]|[A [N X]]]].
+      + unfold f at 1. assert (Y : (v =? n) = false) by (apply Nat.eqb_neq; auto). rewrite Y.
+        unfold f in R1 at 1. rewrite Nat.eqb_refl in R1. exact R1.
+      + unfold f at 1. rewrite Nat.eqb_refl. econstructor; [exact X|].
+        assert (Z : f p = p).
+        { unfold f. assert (p <> n) by (intros ->; apply Nn; eapply (wf_closed _ _ W); eauto).
+          apply Nat.eqb_neq in H. rewrite H. reflexivity. }
+        rewrite Z in R1. exact R1.
+      + assert (Za : f a = a).
+        { unfold f. assert (a <> n) by (intros ->; tauto). apply Nat.eqb_neq in H. rewrite H. reflexivity. }
+        assert (Zp : f p = p).
+        { unfold f. assert (p <> n) by (intros ->; apply Nn; eapply (wf_closed _ _ W); eauto).
+          apply Nat.eqb_neq in H. rewrite H. reflexivity. }
+        rewrite Za. rewrite Zp in R1. econstructor; eauto.
+  Qed.
+
+  Lemma inter_acyclic : acyclic h3 g1.
+  Proof.
+    intros r Hr x Rx [p [Hp Rp]]. unfold edge in Hp.
+    destruct (inter_reach r x Rx Hr) as [_ Hx].
+    assert (Hpg : In p g1) by (eapply (wf_closed _ _ inter_WF); eauto).
+    destruct (inter_reach p x Rp Hpg) as [R1 _].
+    assert (fv : f v = v) by (unfold f; assert (Y : (v =? n) = false) by (apply Nat.eqb_neq; auto); rewrite Y; reflexivity).
+    assert (fn : f n = v) by (unfold f; rewrite Nat.eqb_refl; reflexivity).
+    assert (fold_ : forall y, In y g -> f y = y).
+    { intros y Hy. unfold f. assert (y <> n) by (intros ->; tauto). apply Nat.eqb_neq in H. rewrite H. reflexivity. }
+    destruct (inter_pars_cases x p Hx Hp) as [[-> ->]|[[-> X]|[A [N X]]]].
+    - (* v -> n ->* v : n's first step goes to a parent q of v in the old graph *)
+      assert (Nnv : n <> v) by auto.
+      destruct (reach_step_inv h3 n v Rp Nnv) as [q [Hq Rq]].
+      rewrite inter_pars_n in Hq.
+      assert (Hqg : In q g) by (eapply (wf_closed _ _ W); eauto).
+      destruct (inter_reach q v Rq (in_or_app _ _ _ (or_introl Hqg))) as [R2 _].
+      rewrite (fold_ q Hqg), fv in R2.
+      apply (AC v Hv v (reach_refl _ _)). exists q. split; assumption.
+    - assert (Hpg' : In p g) by (eapply (wf_closed _ _ W); eauto).
+      rewrite (fold_ p Hpg'), fn in R1.
+      apply (AC v Hv v (reach_refl _ _)). exists p. split; assumption.
+    - assert (Hpg' : In p g) by (eapply (wf_closed _ _ W); eauto).
+      rewrite (fold_ p Hpg'), (fold_ x A) in R1.
+      apply (AC x A x (reach_refl _ _)). exists p. split; assumption.
+  Qed.
+
+  Lemma inter_add_node : add_node h3 g n = Ok (h3, g1).
+  Proof.
+    unfold add_node. rewrite add_node_g_known; [reflexivity|exact Nn| |rewrite inter_len; lia].
+    intros p Hp. rewrite inter_pars_n in Hp. eapply (wf_closed _ _ W); eauto.
+  Qed.
+End Intermediate.
+
+Lemma add_intermediate_good : forall h g v nn, WF h g -> acyclic h g -> In v g -> fresh_for (h, g) nn ->
+  exists h' g', add_intermediate (h, g) v nn = Ok (h', g') /\ WF h' g' /\ acyclic h' g'.
+Proof.
+  intros h g v nn W AC Hv FR. unfold add_intermediate. cbn [fst snd].
+  destruct (null (pars (h ++ [fresh_node nn]) v)); [exists h, g; auto|].
+  rewrite (inter_add_node h g v nn W Hv).
+  eexists. eexists. split; [reflexivity|]. split; [apply inter_WF; assumption|apply inter_acyclic; assumption].
+Qed.
+
+(* every strategy step concerns a member, a product with an unused uid, and (add_as_child) a
+   child of that member; validity of a step is stated on the state the step meets *)
+Definition step_ok (s : state) (st : add_step) : Prop :=
+  match st with
+  | AsChild v c nn => In v (snd s) /\ fresh_for s nn /\
+                      (forall x, c = Some x -> In x (snd s) /\ In v (pars (fst s) x))
+  | SepParent v nn => In v (snd s) /\ fresh_for s nn
+  | Intermediate v nn => In v (snd s) /\ fresh_for s nn
+  end.
+
+Fixpoint steps_ok (steps : list add_step) (s : state) : Prop :=
+  match steps with
+  | [] => True
+  | st :: rest => step_ok s st /\ forall s', run_add_step s st = Ok s' -> steps_ok rest s'
+  end.
+
+Lemma run_add_step_good : forall h g st, WF h g -> acyclic h g -> step_ok (h, g) st ->
+  exists h' g', run_add_step (h, g) st = Ok (h', g') /\ WF h' g' /\ acyclic h' g'.
+Proof.
+  intros h g [v c nn|v nn|v nn] W AC H; simpl in H; cbn [run_add_step].
+  - destruct H as [Hv [FR HC]]. apply add_as_child_good; assumption.
+  - destruct H as [Hv FR]. apply add_separate_parent_good; assumption.
+  - destruct H as [Hv FR]. apply add_intermediate_good; assumption.
+Qed.
+
+Theorem single_add_ok : forall steps h g, WF h g -> acyclic h g -> steps_ok steps (h, g) ->
+  exists h' g', single_add steps (h, g) = Ok (h', g') /\ WF h' g' /\ acyclic h' g'.
+Proof.
+  induction steps as [|st t IH]; intros h g W AC H; simpl.
+  - exists h, g. auto.
+  - destruct H as [H1 H2].
+    destruct (run_add_step_good h g st W AC H1) as [h1 [g1 [E [W1 A1]]]].
+    rewrite E. cbn [bind]. apply IH; auto.
+Qed.
+
+Theorem growth_ok : forall c h g, WF h g -> acyclic h g ->
+  match c with
+  | GAdd steps => steps_ok steps (h, g)
+  | GTree t => forall v tr, t = Some (v, tr) -> In v g /\ tree_ok h tr = true
+  end ->
+  exists h' g', growth c (h, g) = Ok (h', g') /\ WF h' g' /\ acyclic h' g'.
+Proof.
+  intros [steps|t] h g W AC H; simpl.
+  - apply single_add_ok; assumption.
+  - apply tree_growth_ok; assumption.
+Qed.
+
+(* ------------------------------------------------------------------ single_change keeps the counts *)
+From Coq Require Import Permutation.
+
+Lemma same_set_same_length : forall (l l' : list ref), NoDup l -> NoDup l' ->
+  (forall y, In y l <-> In y l') -> length l = length l'.
+Proof. intros l l' N N' E. apply Permutation_length. apply NoDup_Permutation; assumption. Qed.
+
+(* replacing v by a value that does not occur keeps the length of a duplicate-free list *)
+Lemma swap_length : forall (l l' : list ref) v n, NoDup l -> NoDup l' -> ~ In n l ->
+  (forall p, In p l' <-> (p = n /\ In v l) \/ (In p l /\ p <> v)) -> length l' = length l.
+Proof.
+  intros l l' v n N N' Hn E.
+  set (sw := fun y => if y =? v then n else y).
+  transitivity (length (map sw l)); [|apply map_length]. apply same_set_same_length; [exact N'| |].
+  - apply map_inj_nodup; [|exact N]. intros x y Hx Hy. unfold sw.
+    destruct (Nat.eqb_spec x v) as [Ex|Nx]; destruct (Nat.eqb_spec y v) as [Ey|Ny]; intros X.
+    + congruence.
+    + exfalso. apply Hn. rewrite X. exact Hy.
+    + exfalso. apply Hn. rewrite <- X. exact Hx.
+    + exact X.
+  - intros p. rewrite E, in_map_iff. unfold sw. split.
+    + intros [[-> Hv]|[Hp Np]].
+      * exists v. rewrite Nat.eqb_refl. auto.
+      * exists p. apply Nat.eqb_neq in Np. rewrite Np. auto.
+    + intros [y [Ey Hy]]. destruct (Nat.eqb_spec y v) as [Eq|Ny].
+      * left. split; [symmetry; exact Ey|rewrite <- Eq; exact Hy].
+      * right. rewrite <- Ey. split; assumption.
+Qed.
+
+(* Full statement (kept visible; the missing half is named below):
+     replace_node (h, g) v nn = Ok (h', g') ->
+     length g' = length g /\ length (edges h' g') = length (edges h g).
+   Proved here: nothing is gained - the members of the result are the new object and members of g
+   other than v, each former member keeps the number of its parents (v replaced by the new object
+   in place), the new object gets as many parents as v had; hence |g'| <= |g|.
+   Missing for equality: that sort_nodes (ordered_subnodes_hierarchy of the only sink) lists EVERY
+   member, i.e. that nothing is lost; this half is checked on every observed call by the oracle
+   clause `same_counts`. *)
+Theorem single_change_counts_partial : forall h g v nn h' g', WF h g -> acyclic h g -> In v g ->
+  fresh_for (h, g) nn -> replace_node (h, g) v nn = Ok (h', g') ->
+  let n := length h in
+  (forall x, In x g' -> x = n \/ (In x g /\ x <> v)) /\
+  length g' <= length g /\
+  (forall x, In x g' -> x <> n -> length (pars h' x) = length (pars h x)) /\
+  (In n g' -> length (pars h' n) = length (pars h v)).
+Proof.
+  intros h g v nn h' g' W AC Hv FR E n. unfold replace_node in E. cbn [fst snd] in E.
+  pose proof (alloc1_WF h g nn W) as W1.
+  pose proof (alloc1_guard_upd h g nn W FR v Hv) as G.
+  set (h1 := h ++ [fresh_node nn]) in *. fold n in E, G.
+  destruct (update_node_facts h1 g v n W1 G) as [h2 [g3 [E' [W' [[L2 F1] [FG [FN [FO FM]]]]]]]].
+  rewrite E in E'. inversion E'; subst h2 g3. clear E'.
+  assert (Nn : ~ In n g) by (apply (alloc1_new_not_member h g W)).
+  assert (Pold : forall x, In x g -> pars h1 x = pars h x).
+  { intros x Hx. apply pars_app_l. apply (wf_valid _ _ W). exact Hx. }
+  assert (Pn : pars h1 n = []) by (apply (alloc1_pars_new h nn)).
+  assert (Nvv : ~ In v (pars h v)).
+  { intros X. apply (AC v Hv v (reach_refl _ _)). exists v. split; [exact X|constructor]. }
+  assert (PN : forall p, In p (pars h' n) <-> In p (pars h v)).
+  { intros p. rewrite FN, Pn, (Pold v Hv). split.
+    - intros [[]|[[_ X]|[X _]]]; [tauto|exact X].
+    - intros X. right. right. split; [exact X|]. intros ->. tauto. }
+  assert (CL : forall x p, (x = n \/ (In x g /\ x <> v)) -> In p (pars h' x) -> p = n \/ (In p g /\ p <> v)).
+  { intros x p [->|[Hx Nx]] Hp.
+    - apply PN in Hp. right. split; [eapply (wf_closed _ _ W); eauto|]. intros ->. tauto.
+    - apply (FG x Hx) in Hp. rewrite (Pold x Hx) in Hp. destruct Hp as [[-> _]|[Hp Np]]; [auto|].
+      right. split; [eapply (wf_closed _ _ W); eauto|exact Np]. }
+  assert (M : forall x, In x g' -> x = n \/ (In x g /\ x <> v)).
+  { intros x Hx. destruct (FM x Hx) as [A|R]; [auto|].
+    exact (reach_closed_set h' (fun y => y = n \/ (In y g /\ y <> v)) n x R (or_introl eq_refl) CL). }
+  split; [exact M|]. split; [|split].
+  - destruct (list_remove_ok v g Hv) as [g1 E1].
+    pose proof (list_remove_length _ _ _ E1) as LG.
+    assert (I : incl g' (n :: g1)).
+    { intros x Hx. destruct (M x Hx) as [->|[A B]]; [left; reflexivity|right].
+      eapply list_remove_other; eauto. }
+    pose proof (NoDup_incl_length (wf_nodup _ _ W') I) as X. simpl in X. unfold ref in *. lia.
+  - intros x Hx' Nx. destruct (M x Hx') as [->|[Hx Nxv]]; [congruence|].
+    apply (swap_length (pars h x) (pars h' x) v n).
+    + apply (wf_pnodup _ _ W). exact Hx.
+    + apply (wf_pnodup _ _ W'). exact Hx'.
+    + intros X. apply Nn. eapply (wf_closed _ _ W); eauto.
+    + intros p. rewrite (FG x Hx), (Pold x Hx). tauto.
+  - intros Hn'. apply same_set_same_length.
+    + apply (wf_pnodup _ _ W'). exact Hn'.
+    + apply (wf_pnodup _ _ W). exact Hv.
+    + exact PN.
+Qed.
